@@ -34,8 +34,16 @@ func main() {
 		matrix()
 	case "vta":
 		vtaCmd()
+	case "inline":
+		inlineCmd(os.Args[2:])
+	case "baseline-funcs":
+		for _, k := range mustLoad().DeclaredFuncKeys() {
+			fmt.Println(k)
+		}
 	case "range":
 		rangeCmd(os.Args[2:])
+	case "nfdebug":
+		nfdebug(os.Args[2:])
 	case "omatrix":
 		omatrix(os.Args[2:])
 	default:
@@ -62,21 +70,17 @@ func check(args []string) int {
 	if err != nil {
 		return core.Fail(*prop, *tier, err.Error())
 	}
-	R := core.NewReport(*prop, *tier)
-	func() {
-		defer func() {
-			if e := recover(); e != nil {
-				R.Undecided("analyser-panic", "-", fmt.Sprint(e), "-", "the analyser panicked; no verdict")
-				if os.Getenv("ELYSLINT_DEBUG") != "" {
-					panic(e)
+	R, PV := rules.Decide(*prop, *tier, P, nil)
+	if *tier == "thorough" {
+		func() {
+			defer func() {
+				if e := recover(); e != nil {
+					R.Undecided("analyser-panic", "-", fmt.Sprint(e), "-", "the analyser panicked in the thorough tier; no verdict")
 				}
-			}
+			}()
+			rules.Thorough(*prop, PV, R)
 		}()
-		c(P, R)
-		if *tier == "thorough" {
-			rules.Thorough(*prop, P, R)
-		}
-	}()
+	}
 	if *only != "" {
 		for _, o := range R.Obls {
 			if o.Key() == *only {
@@ -84,7 +88,7 @@ func check(args []string) int {
 			}
 		}
 	}
-	return R.Finish(P)
+	return R.Finish(PV)
 }
 
 func mustLoad() *core.Program {
@@ -230,16 +234,9 @@ func matrix() {
 }
 
 func runMatrix(P *core.Program, verbose bool) {
+	nf := &rules.NFCache{}
 	for _, id := range rules.IDs() {
-		R := core.NewReport(id, "quick")
-		func() {
-			defer func() {
-				if e := recover(); e != nil {
-					R.Undecided("analyser-panic", "-", fmt.Sprint(e), "-", "panic")
-				}
-			}()
-			rules.Get(id)(P, R)
-		}()
+		R, _ := rules.Decide(id, "quick", P, nf)
 		v := R.Violations()
 		var ks []string
 		for _, o := range v {
@@ -345,5 +342,91 @@ func rangeCmd(args []string) {
 	}
 	for _, u := range core.SortedKeys(E.Used) {
 		fmt.Println("used:", u)
+	}
+}
+
+// inlineCmd builds the inlined normal form and runs every checker on it:
+// `elyslint inline [-v] [-dump file] [patch.diff]`.
+func inlineCmd(args []string) {
+	verbose, dump := false, ""
+	for len(args) > 0 && strings.HasPrefix(args[0], "-") {
+		switch args[0] {
+		case "-v":
+			verbose = true
+		case "-dump":
+			dump = args[1]
+			args = args[1:]
+		}
+		args = args[1:]
+	}
+	var base map[string][]byte
+	if len(args) > 0 {
+		ov, err := rules.OverlayFor(core.RepoDir(), args[0], false)
+		if err != nil {
+			fmt.Println("APPLY-ERROR", err)
+			os.Exit(3)
+		}
+		base = ov
+	}
+	P0, err := core.Load(core.RepoDir(), base)
+	if err != nil {
+		fmt.Println("LOAD-ERROR", err)
+		os.Exit(3)
+	}
+	P, n, log, err := core.InlinedNormalForm(core.RepoDir(), base, P0, 4)
+	if err != nil {
+		fmt.Println(err)
+		os.Exit(3)
+	}
+	fmt.Printf("inlined %d calls\n", n)
+	for _, l := range log {
+		if verbose || strings.Contains(l, "discarded") {
+			fmt.Println("  ", l)
+		}
+	}
+	if dump != "" {
+		for f, b := range P.Overlay {
+			if strings.HasSuffix(f, dump) {
+				os.Stdout.Write(b)
+			}
+		}
+		return
+	}
+	runMatrix(P, verbose)
+}
+
+// nfdebug <patch> <PROP> [dumpFileSuffix]: applies the patch as overlay, builds the
+// baseline-relative normal form, prints the inlining log and the property's violations there.
+func nfdebug(args []string) {
+	ov, err := rules.OverlayFor(core.RepoDir(), args[0], false)
+	if err != nil {
+		fmt.Println("APPLY-ERROR", err)
+		os.Exit(3)
+	}
+	P, err := core.Load(core.RepoDir(), ov)
+	if err != nil {
+		fmt.Println("LOAD-ERROR", err)
+		os.Exit(3)
+	}
+	P2, n, log := rules.NormalForm(P)
+	fmt.Println("inlined", n)
+	for _, l := range log {
+		fmt.Println("  ", l)
+	}
+	if len(args) > 2 {
+		for f, b := range P2.Overlay {
+			if strings.HasSuffix(f, args[2]) {
+				os.Stdout.Write(b)
+			}
+		}
+		return
+	}
+	for _, view := range []*core.Program{P, P2} {
+		R := core.NewReport(args[1], "quick")
+		rules.Get(args[1])(view, R)
+		fmt.Println("--- view")
+		for _, o := range R.Violations() {
+			fmt.Printf("    %s: [%s] %s — %s\n", o.Pos, o.Status, o.Key(), o.Detail)
+		}
 	}
 }
